@@ -350,21 +350,21 @@ class Kernel:
                  (psutil, "_last_cpu_times", {}), (psutil, "_last_per_cpu_times", {}), (psutil, "_last_cpu_times_2", {}),
                  (psutil, "_last_per_cpu_times_2", {})]
         patches += state + list(extra)
+        # generic isolation of module-level state between paths: every global binding of the psutil modules is restored afterwards
+        # (also names the tree did not have when this framework was written: a module-level cache added by a change under test), and
+        # plain containers are replaced by copies for the duration so that in-place mutation cannot leak into the next path either.
+        # The snapshot is taken BEFORE anything is patched.
+        snapshot = [(m, dict(vars(m))) for m in MODS]
         saved = []
         for m, name, val in patches:
             saved.append((m, name, getattr(m, name, _MISSING)))
             setattr(m, name, val)
-        # generic isolation of module-level state between paths: every global binding of the psutil modules is restored afterwards
-        # (also names the tree did not have when this framework was written: a module-level cache added by a change under test), and
-        # plain containers are replaced by copies for the duration so that in-place mutation cannot leak into the next path either
-        snapshot = []
+        patched = {(id(m), name) for m, name, _ in patches}
         for m in MODS:
             d = vars(m)
-            before = dict(d)
             for name, val in list(d.items()):
-                if not name.startswith("__") and type(val) in (dict, list, set) and not any(m is pm and name == pn for pm, pn, _ in patches):
+                if not name.startswith("__") and type(val) in (dict, list, set) and (id(m), name) not in patched:
                     d[name] = type(val)(val)
-            snapshot.append((m, before))
         if getattr(k.ctx, "symbolic", False):
             k.shadows.install(*MODS)
         self._clear_caches(_common, _pslinux, _psposix)
